@@ -689,6 +689,9 @@ where
     }
 }
 
+#[cfg(all(test, feature = "mocks", feature = "verif-hooks"))]
+mod verif_replays;
+
 #[cfg(all(test, feature = "mocks"))]
 mod tests {
 
